@@ -511,10 +511,12 @@ class C17(Prop):
                         add({"kind": "set", "fn": fn, "a": a, "b": b})
                     else:
                         add({"kind": "set", "fn": fn, "a": a, "b": b}, "py")
-        for _ in range(300 if quick else 3000):
-            pool = [rng.choice(["x", "y", "zz", "", "x ", 0, 1, -1, 7, 2 ** 40, 2 ** 61 - 1, 2 ** 61 - 2]) for _ in range(rng.randint(1, 4))]
-            a = [rng.choice(pool) for _ in range(rng.randint(0, 7))]
-            b = [rng.choice(pool) for _ in range(rng.randint(0, 7))]
+        for _ in range(600 if quick else 6000):
+            pool = [rng.choice(["x", "y", "zz", "", "x ", "X", 0, 1, -1, 7, 2 ** 40, 2 ** 61 - 1, 2 ** 61 - 2, "7"])
+                    for _ in range(rng.randint(1, 7))]
+            hi = 7 if rng.random() < 0.7 else 14
+            a = [rng.choice(pool) for _ in range(rng.randint(0, hi))]
+            b = [rng.choice(pool) for _ in range(rng.randint(0, hi))]
             add({"kind": "set", "fn": rng.choice(SETFN + ["unique_size"]), "a": a, "b": b})
 
         # --- normalize ---
@@ -557,6 +559,14 @@ class C17(Prop):
                 body = "".join(rng.choice(["a", "c", "-", "b", "!", "]", "e"]) for _ in range(rng.randint(1, 5)))
                 p = rng.choice(["", "a", "*"]) + "[" + body + "]" + rng.choice(["", "*", "b", "?"])
             t = "".join(rng.choice(["a", "b", "c", "-", "d", "!", "]"]) for _ in range(rng.randint(0, 4)))
+            add({"kind": "glob", "text": t, "pat": p}, "py" if rng.random() < 0.8 else None)
+        C6 = ["a", "A", "b", "B", "*", "?", "[", "]"]
+        for _ in range(1500 if quick else 20000):
+            p = "".join(rng.choice(C6) for _ in range(rng.randint(1, 4)))
+            t = "".join(rng.choice(["a", "A", "b", "B"]) for _ in range(rng.randint(0, 4)))
+            if rng.random() < 0.5:      # a text that matches up to letter case
+                t = "".join((ch.swapcase() if rng.random() < 0.5 else ch) if ch.isalpha() else rng.choice(["a", "B", ""])
+                            for ch in p)
             add({"kind": "glob", "text": t, "pat": p}, "py" if rng.random() < 0.8 else None)
         for t, p in [("ABC", "abc"), ("abc", "ABC"), ("a\nb", "a?b"), ("a\nb", "*"), ("x.py", "*.py"), ("x.pyc", "*.py"),
                      ("", ""), ("", "*"), ("a", ""), ("[", "["), ("[a", "[a"), ("a", "[!]"), ("!", "[!]"), ("]", "[]]"),
@@ -823,9 +833,16 @@ class C17(Prop):
             return None
         if k == "cidr":
             n, x = ref_net(c["n"]), ref_net(c["x"])
-            if c["n"]["t"] != "net" or not isinstance(n, tuple) or not isinstance(x, tuple):
+            if c["n"]["t"] != "net" or not isinstance(n, tuple):
                 return None
-            exp = _b(n[0] <= x[0] and x[1] <= n[1])
+            if isinstance(x, tuple):
+                exp = _b(n[0] <= x[0] and x[1] <= n[1])
+            elif x == "invalid" or c["x"]["t"] in ("bad", "v6"):
+                exp = "false"       # nothing that is not an IPv4 address/network lies inside an IPv4 network
+            else:
+                return None
+            if not isinstance(x, tuple):
+                x = ("-", "-")
             if out != exp:
                 return (f"parse_cidr({cidr_text(c['n'])!r}).contains(parse_cidr({cidr_text(c['x'])!r})) via {c['via']} gave {out}; "
                         f"[{x[0]},{x[1]}] inside [{n[0]},{n[1]}] is {exp}")
